@@ -615,13 +615,17 @@ Fixpoint n0_scan (pc : list bclass) (ecls : bclass) (not_e : bclass) (pair_end :
   end.
 
 (* NSM fix-up after a changed bracket, implicit.rs:407-423 *)
-Fixpoint n0_nsm (oc : list bclass) (pc : list bclass) (idxs : list nat) (x : bclass) : res (list bclass) :=
+(* repaired (D10): an X9-removed character is skipped whatever its working class has become; the
+   unrepaired code tested the working class for BN *)
+Fixpoint n0_nsm (legacy : bool) (oc : list bclass) (pc : list bclass) (idxs : list nat) (x : bclass)
+  : res (list bclass) :=
   match idxs with
   | [] => Ok pc
   | j :: rest =>
     o <- get 408 oc j ;;
     p <- get 409 pc j ;;
-    if (o =c NSM) || (p =c BN) then pc' <- upd 410 pc j x ;; n0_nsm oc pc' rest x
+    if (o =c NSM) || (if legacy then p =c BN else removed_by_x9 o)
+    then pc' <- upd 410 pc j x ;; n0_nsm legacy oc pc' rest x
     else Ok pc
   end.
 
@@ -631,7 +635,7 @@ Definition first_char_len (site : nat) (sub : list N) : res nat :=
   | c :: _ => Ok (char_len e c)
   end.
 
-Definition n0_pair (backwards : list run -> nat -> nat -> res (list nat))
+Definition n0_pair (legacy : bool) (backwards : list run -> nat -> nat -> res (list nat))
            (text : list N) (sq : irs) (oc : list bclass) (ecls not_e : bclass)
            (pc : list bclass) (pair : bracket_pair) : res (list bclass) :=
   let runs := irs_runs sq in
@@ -658,18 +662,18 @@ Definition n0_pair (backwards : list run -> nat -> nat -> res (list nat))
     bw <- backwards runs (bp_start pair) (bp_start_run pair) ;;
     pc <- set_while_bn 395 pc bw cts ;;
     fw1 <- iter_forwards_from runs (bp_start pair + start_char_len) (bp_start_run pair) ;;
-    pc <- n0_nsm oc pc fw1 cts ;;
+    pc <- n0_nsm legacy oc pc fw1 cts ;;
     fw2 <- iter_forwards_from runs (bp_end pair + end_char_len) (bp_end_run pair) ;;
-    n0_nsm oc pc fw2 cts
+    n0_nsm legacy oc pc fw2 cts
   end.
 
-Fixpoint n0_pairs (backwards : list run -> nat -> nat -> res (list nat))
+Fixpoint n0_pairs (legacy : bool) (backwards : list run -> nat -> nat -> res (list nat))
          (text : list N) (sq : irs) (oc : list bclass) (ecls not_e : bclass)
          (pc : list bclass) (pairs : list bracket_pair) : res (list bclass) :=
   match pairs with
   | [] => Ok pc
-  | p :: rest => pc' <- n0_pair backwards text sq oc ecls not_e pc p ;;
-                 n0_pairs backwards text sq oc ecls not_e pc' rest
+  | p :: rest => pc' <- n0_pair legacy backwards text sq oc ecls not_e pc p ;;
+                 n0_pairs legacy backwards text sq oc ecls not_e pc' rest
   end.
 
 (* N1/N2, implicit.rs:431-485: one shared iterator consumed by an outer and an inner loop *)
@@ -720,7 +724,7 @@ Definition resolve_neutral_gen (legacy : bool) (text : list N) (sq : irs) (level
     let ecls := level_class l0 in
     let not_e := if ecls =c L then R else L in
     pairs <- identify_bracket_pairs_gen legacy text sq oc pc ;;
-    pc <- n0_pairs (if legacy then iter_backwards_from_legacy else iter_backwards_from)
+    pc <- n0_pairs legacy (if legacy then iter_backwards_from_legacy else iter_backwards_from)
                    text sq oc ecls not_e pc pairs ;;
     let idxs := flat_map run_range (irs_runs sq) in
     n12_loop (S (length idxs)) sq ecls pc idxs (irs_sos sq)
